@@ -45,7 +45,7 @@ TT = 'chainables.tree'
 
 
 def run(ctx: Ctx):
-  for r in (r1, r2, r3, r4, r5, r6, r8, r9, r10, r13):
+  for r in (r1, r2, r3, r4, r5, r6, r8, r9, r10, r13, r17):
     ctx.guard(r)
   from mlmverif.props import c03
   ctx.include('R-C02-7', 'every sliced aggregate sees every slice: the slices of'
@@ -412,6 +412,17 @@ def _apply_mask_modes(ctx, rule, ap):
       ctx.fail(rule, ap, what, problem, node=node)
     else:
       ctx.ok(rule, ap, what, node)
+
+
+def r17(ctx: Ctx):
+  rule = 'R-C02-17'
+  ctx.rule(rule, '"for all ... batched input streams including empty streams": the one-shot runner (`pipeline.make()(...)`) returns'
+           ' the aggregate of nothing for an empty stream like iterate().agg_result does — it does not take'
+           ' `more_itertools.last(<iterator>)` without a default, which raises ValueError("last() was called on an empty'
+           ' iterable") (and, because last() also catches TypeError, reports a TypeError raised INSIDE the pipeline as that'
+           ' same misleading ValueError)')
+  from mlmverif.props import c19
+  c19.ends_have_default(ctx, rule, ('chainables.transform',), 1)
 
 
 def r4(ctx: Ctx):
